@@ -60,6 +60,8 @@ DEFAULT_TIMEOUT = {"hours": 12}     # /start-instance(s) without a "timeout" key
 
 
 def micros(tdict):
+    if isinstance(tdict, _dt.timedelta):      # an implementation may keep the timeout as a timedelta object
+        return tdict // US
     if tdict is None:
         tdict = DEFAULT_TIMEOUT
     return _dt.timedelta(**{k: v for k, v in tdict.items() if k in UNITS}) // US     # create_instance ignores keys that are no unit
@@ -758,6 +760,23 @@ def probe_keepalive_restores():
     return lines[-1].startswith("ok;live=0:")
 
 
+def probe_clock_controllable():
+    """does the code read the time through the `datetime` attribute of bptkServer.py / externalStateAdapter.py, which the
+    harness replaces? (a clock built on time.monotonic(), time.time(), … cannot be followed by the controlled clock)"""
+    srv = Server()
+    try:
+        srv.clock.begin(123_456_789)
+        srv.do(("create", {"hours": 1}))
+        raw = [v.get("time") for v in srv.app._instance_manager._instances.values()]
+        reads = srv.clock.reads
+    finally:
+        srv.close()
+    # followed = the code took its time from the replaced attribute at all; WHAT it stored from that reading (exact, truncated,
+    # shifted) is the property's business (probe_stamp_exact, reference check), not a limit of the harness
+    ok = bool(raw) and all(isinstance(t, _dt.datetime) for t in raw) and reads >= 1
+    return ok, {"controlled_time_us": 123_456_789, "stored": [str(t) for t in raw], "clock_reads": reads}
+
+
 def probe_stamp_exact():
     """is the stored last-access time the clock reading itself? (creation and timer restart late in a second)"""
     evs = [(1_500_000, ("create", {"seconds": 5})), (2_999_999, ("access", 0, "results")), (3_999_990, ("keepalive", 0), [3, 3])]
@@ -923,6 +942,25 @@ def run(chk):
     quiet_bptk_logging()
     sink = io.StringIO()
     with contextlib.redirect_stdout(sink):
+        controllable, clock_info = probe_clock_controllable()
+    chk.notes["clock_probe"] = clock_info
+    if not controllable:
+        # harness limit, not a statement about the code: nothing generated under the controlled clock means anything
+        ok, why = chk.prove("import Bptk.Props.C17\n/-! GENERATED by harness/props/c17.py — the controlled clock cannot follow this tree. -/\n"
+                            "namespace Bptk.C17.Gen\ndef cfg : Cfg := { keepAliveRestores := false }\n"
+                            "theorem holds_partial : C17_core cfg := C17_partial cfg\n#print axioms holds_partial\nend Bptk.C17.Gen\n")
+        chk.cov["rule"] = "none: the controlled clock cannot follow this tree"
+        chk.add_finding("correspondence", "the code does not take the time from the `datetime` attribute of bptkServer.py / externalStateAdapter.py that the harness "
+                        f"replaces (an instance created at controlled time 123456789 µs is stamped {clock_info['stored']}, {clock_info['clock_reads']} reads seen): "
+                        "the controlled clock cannot follow it, so no timed history can be decided — harness limit" + ("" if chk.quick else "; only the real-time timelines were run"),
+                        {"correspondence": "controlled clock vs the code's clock source", "detail": clock_info}, found_input=False)
+        if not chk.quick:
+            with contextlib.redirect_stdout(sink):
+                rt = real_time_timelines(chk.notes)
+            for key, text in rt:
+                chk.add_finding(key, text, {"real_time": True, "text": text})
+        return
+    with contextlib.redirect_stdout(sink):
         restores = probe_keepalive_restores()
         exact = probe_stamp_exact()
         chk.notes["clock_reads_per_endpoint"] = probe_reads()
@@ -1053,6 +1091,22 @@ def run(chk):
     if not ok:
         chk.add_finding("obligation", f"proof obligations of C17 no longer check: {why}",
                         {"theorem": "Bptk.C17.Gen.* / Bptk.Props.C17", "detail": why}, found_input=False)
+    if diff is not None and not [k for k in seen if k != "keep-alive-no-restore"] and isinstance(ctx[diff] if diff < len(ctx) else None, tuple) \
+            and ctx[diff][0] != "units":
+        # The model places the clock reads of a request where the pinned code does (one per key of the sweep loop, in dict
+        # order).  Another placement or order (one read per sweep, an LRU-ordered dict, a guarded sweep) is a legitimate
+        # implementation; the per-step reference check above has already judged every moving-clock request on the interval
+        # of its reads.  So: run the same histories once more with the clock FIXED inside each request — where every
+        # placement is the same request (theorem stepR_const_eq_step2) — and compare with the model without the read count.
+        with contextlib.redirect_stdout(sink):
+            diff2, where2, n2, v2 = fixed_clock_recheck(hists, restores, exact, same)
+        chk.notes["read_placement"] = {"first_difference": {"line": req[diff], "model": model[diff] if diff < len(model) else None,
+                                                            "impl": real[diff] if diff < len(real) else None},
+                                       "fixed_clock_recheck": {"histories": n2, "agrees": diff2 is None and not v2}}
+        if diff2 is None and not v2:
+            diff = None      # only the intra-request read placement / order differs from the model: not a finding
+        else:
+            chk.notes["read_placement"]["fixed_clock_difference"] = where2
     if diff is not None and not [k for k in seen if k != "keep-alive-no-restore"]:
         c = ctx[diff] if diff < len(ctx) else None
         evs = hists[c[0]][0][:c[1] + 1] if isinstance(c, tuple) and c[0] != "units" else None
@@ -1061,6 +1115,27 @@ def run(chk):
                          "events": [[x[0], list(x[1]), list(x[2])] for x in map(norm, evs)] if evs else c,
                          "model": model[diff] if diff < len(model) else None, "impl": real[diff] if diff < len(real) else None},
                         found_input=False)
+
+
+def fixed_clock_recheck(hists, restores, exact, same):
+    """the generated histories again, without clock increments: model vs server, read counts not compared"""
+    req = [f"cfg keepAliveRestores {1 if restores else 0}", f"cfg stampExact {1 if exact else 0}"]
+    real = ["ok", "ok"]
+    viols = []
+    n = 0
+    for evs, _, _ in hists:
+        flat = [(x[0], x[1], []) for x in map(norm, evs)]
+        lines, vv = run_history(flat)
+        viols += vv
+        n += 1
+        req.append("new"); real.append("ok")
+        for item, ln in zip(flat, lines):
+            ml, rl = model_lines(item[0], item[1], [], ln.rsplit(";reads=", 1)[0])
+            req += ml; real += rl
+    model = drive("C17", req)
+    d = next((i for i, (a, b) in enumerate(zip(model, real)) if not same(a, b)), None)
+    where = None if d is None else {"line": req[d], "model": model[d], "impl": real[d]}
+    return d, where, n, viols[:3]
 
 
 def replay(path):
